@@ -142,6 +142,55 @@ def replay_wire(case):
     check_wire(Ctx(PROPERTY, "wire", "quick", 0, 0, 1), tuple(case))
 
 
+# ---------------------------------------------------------------- going up and sideways: the entry of the *destination* decides
+DIRS = ["/a", "/a/b", "/c", "/c/g", "/b"]
+MOVE = st.sampled_from(["CDUP", "CDUP", "CWD ..", "CWD ../..", "CWD .", "CWD b", "CWD g", "CWD ../b", "CWD ../c", "CWD /a/b", "CWD /c/g",
+                        "CWD /a/b/..", "PWD", "MLST .", "MLST ..", "MKD n", "LIST-less:MLST ../f"])
+UPDOWN = st.tuples(TABLE, st.sampled_from(DIRS), st.lists(MOVE, min_size=2, max_size=7), st.sampled_from(["mem", "fs"]))
+
+
+def check_updown(ctx, case):
+    """Directed histories: enter a directory (table made permissive for that first step by construction of the start),
+    then move with CDUP / 'CWD ..' / relative CWD: every move is authorised by the entry governing its destination."""
+    table, start, moves, backend = case
+    users = [dict(login=None, password=None, home=start, perms=[tuple(e) for e in table] or [("/", True, True)])]
+    lines = ["USER anonymous", "PWD"]
+    for mv in moves:
+        mv = mv.split(":", 1)[-1]
+        lines.append(mv)
+        if mv.split(" ")[0] in ("CWD", "CDUP"):
+            lines.append("PWD")
+    history = walk.from_lines(lines, users=users, tree=TREE)
+    recs = []
+
+    async def go(loop):
+        with harness.TempDirs() as td:
+            tmp = td.new() if backend != "mem" else None
+            out = await walk.execute(loop, history, backend=backend, tmp=tmp, users=users, tree=TREE, records=recs)
+            await walk.finish(*out[2:])
+
+    try:
+        simnet.run(go)
+    finally:
+        denied = sum(1 for r in recs if r.get("got") == ["550"] and r["cmd"].split(" ")[0] in ("CDUP", "CWD"))
+        ups = sum(1 for r in recs if r["cmd"] in ("CDUP", "CWD ..", "CWD ../.."))
+        ctx.count([table, start, moves, backend], denied > 0 and ups > 0,
+                  sample=dict(table=table, home=start, backend=backend, history=[(r["cmd"], r.get("got")) for r in recs]),
+                  classes=["updown_be_" + backend] + (["updown_denied_move"] if denied else [])
+                  + ["updown_" + r["cmd"].split(" ")[0] + "_" + (r.get("got") or ["?"])[0] for r in recs if r["cmd"].split(" ")[0] in ("CDUP", "CWD")])
+
+
+def part_updown(ctx):
+    n = 250 if ctx.tier == "quick" else 4000
+    hyp_run(ctx, UPDOWN, lambda c: check_updown(ctx, c), n, name="updown")
+
+
+def replay_updown(case):
+    from vlib.runner import Ctx
+    table, start, moves, backend = case
+    check_updown(Ctx(PROPERTY, "updown", "quick", 0, 0, 1), ([tuple(e) for e in table], start, list(moves), backend))
+
+
 def plan(tier):
     return [("lookup", 4), ("wire", 12)]
 
@@ -170,4 +219,4 @@ def replay_window(case):
 
 
 def plan(tier):  # noqa: F811
-    return [("lookup", 4), ("wire", 10), ("window", 2)]
+    return [("lookup", 3), ("wire", 8), ("window", 2), ("updown", 3)]
